@@ -86,6 +86,36 @@ HAND_SEEDS = {
 2 0.6 0.5 110 0.4
 [End]
 """,
+    # counts that do not fit: ports whose square overflows, more frequencies
+    # than any file holds (the loaders must not size anything from them)
+    "h_ts2_65536_ports.ts": b"""[Version] 2.0
+# GHz S RI R 50
+[Number of Ports] 65536
+[Number of Frequencies] 1
+[Network Data]
+1.0 0.5 0.5
+""",
+    "h_ts2_many_frequencies.ts": b"""[Version] 2.0
+# GHz S RI R 50
+[Number of Ports] 3
+[Number of Frequencies] 2147483647
+[Network Data]
+1.0 .1 .1 .1 .1 .1 .1 .1 .1 .1 .1 .1 .1 .1 .1 .1 .1 .1 .1
+""",
+    "h_npd_many_frequencies.npd": b"""#NPD
+#:version 1.0
+#:ports 2
+#:frequencies 2147483647
+#:parameters Sri
+1e9 .1 .1 .1 .1 .1 .1 .1 .1
+""",
+    "h_npd_huge_ports_z0.npd": b"""#NPD
+#:version 1.0
+#:ports 2147483647
+#:frequencies 2
+#:parameters Sri
+#:z0 75.0 +0.0j 50.0 +0.0j
+""",
     # network parameter data with the older #:rows / #:columns keywords
     "h_npd_rows_columns.npd": b"""#NPD
 #:version 1.0
@@ -197,7 +227,10 @@ def mutate(data, rng):
     if b"[Number of " in data and rng.random() < 0.25:
         # Touchstone 2: the value of one "[Number of ...]" keyword replaced
         # by a small, a boundary or an overflowing count (products of two
-        # such counts size the loader's tables)
+        # such counts size the loader's tables).  Port counts whose square
+        # still fits an int (46340: 34 GB per frequency) are left out: the
+        # loaders allocate what a file declares before they read it, which
+        # is a resource question this check does not assert (DESIGN 7.5)
         lines = data.split(b"\n")
         hdr = [k for k, ln in enumerate(lines) if ln.lstrip().lower().startswith(
             b"[number of ")]
@@ -205,7 +238,7 @@ def mutate(data, rng):
             k = hdr[int(rng.integers(0, len(hdr)))]
             head = lines[k].split(b"]")[0] + b"]"
             val = bytes(rng.choice([b"0", b"-1", b"1", b"2", b"3", b"5", b"9",
-                                    b"65535", b"65536", b"46340", b"46341",
+                                    b"65535", b"65536", b"46341",
                                     b"131072", b"2147483647", b"2147483648",
                                     b"4294967296", b"4294967297"]))
             lines[k] = head + b" " + val
